@@ -45,9 +45,10 @@ def ini_for(d, spec):
     if spec.get('on_demand'):
         # an idle on-demand watcher: nothing is spawned until somebody connects to its socket; every periodic
         # check looks at that socket
-        txt += ('[socket:od]\nhost = 127.0.0.1\nport = 0\n\n[watcher:od]\ncmd = %s --fd $(circus.sockets.od)\n'
+        txt += ('[socket:od]\nhost = 127.0.0.1\nport = 0\n%s\n[watcher:od]\ncmd = %s --fd $(circus.sockets.od)\n'
                 'use_sockets = True\non_demand = True\nnumprocesses = 1\ncopy_env = True\ngraceful_timeout = 0.5\n\n'
-                % live.worker_cmd({'log': '@LOG@', 'tagw': 'od'}))
+                % ('type = SOCK_DGRAM\n' if spec['on_demand'] == 'dgram' else '',
+                   live.worker_cmd({'log': '@LOG@', 'tagw': 'od'})))
     return txt
 
 
@@ -399,6 +400,17 @@ def judge_stop(rec, res, spec):
             res.violation('C02/live:worker-present-when-stop-answered',
                           'right after stop %s was answered ok the daemon still has children %s (pid: tag, state, '
                           'starttime)' % (name, left))
+    if spec.get('on_demand'):
+        # nobody ever talks to the socket of the on-demand watcher: no periodic check may start it
+        for pt in rec['points']:
+            res.obs['live_on_demand_points_judged'] += 1
+            here = {p: v for p, v in list(pt['proc'].items()) + list(pt.get('proc2', {}).items()) if v[0] == 'od'}
+            rp = pt['reported'].get('od')
+            if here or (rp is not None and (rp['pids'] or rp['status'] != 'stopped')):
+                res.violation('C02/live:on-demand-watcher-started-without-a-socket-event',
+                              'at "%s" the idle on-demand watcher (socket %s, never contacted) has workers %s, reports %s'
+                              % (pt['label'], spec['on_demand'], here, rp))
+                break
     for pt in rec['points']:
         if not pt['label'].startswith('after stop '):
             continue
